@@ -31,7 +31,10 @@ def ctext(s):
 
 
 def cname(s):
-    return "(s2l %s)" % ctext(s)
+    """a name as the list of its bytes (UTF-8, which is what _quote percent-encodes for a raw non-ASCII name)"""
+    if all(32 <= ord(c) < 127 for c in s):
+        return "(s2l %s)" % ctext(s)
+    return "[%s]" % ";".join("ascii_of_nat %d" % b for b in s.encode("utf-8"))
 
 
 # ---------------------------------------------------------------- abstract specs
